@@ -16,15 +16,15 @@ CHECKS = {
         runs=[
             dict(name="exhaustive", run="^TestExhaustive$", shards=(8, 16)),
             dict(name="fixed", run="^(TestMountRejects|TestRegress.*)$", shards=(1, 1)),
-            dict(name="random", run="^TestProp", checks=(4000, 30000), shards=(4, 16)),
+            dict(name="random", run="^TestProp", checks=(10000, 60000), shards=(4, 16)),
         ],
         fuzz=[dict(target="FuzzLookupNeverPanics", secs=(0, 60))],
     ),
     "C04": dict(
         pkg="./c04", level="exploration",
         runs=[
-            dict(name="seq", run="^TestPropSequential$", checks=(3000, 30000), shards=(4, 16)),
-            dict(name="conc", run="^TestPropConcurrent$", checks=(150, 1500), shards=(4, 16)),
+            dict(name="seq", run="^TestPropSequential$", checks=(10000, 60000), shards=(4, 16)),
+            dict(name="conc", run="^TestPropConcurrent$", checks=(500, 3000), shards=(4, 16)),
             dict(name="trickle", run="^TestPropTrickle$", checks=(12, 60), shards=(4, 8), shrinktime="1s"),
             dict(name="regress", run="^TestRegress", shards=(1, 1)),
         ],
@@ -32,22 +32,22 @@ CHECKS = {
     "C05": dict(
         pkg="./c05", level="exploration",
         runs=[
-            dict(name="dispatch", run="^TestPropDispatch$", checks=(4000, 40000), shards=(4, 16)),
+            dict(name="dispatch", run="^TestPropDispatch$", checks=(12000, 80000), shards=(4, 16)),
             dict(name="doc", run="^TestDocCodes$", shards=(1, 1)),
         ],
     ),
     "C07": dict(
         pkg="./c07", level="exploration",
         runs=[
-            dict(name="requests", run="^TestPropRequests$", checks=(4000, 40000), shards=(4, 16)),
-            dict(name="service", run="^TestPropServiceLevel$", checks=(2000, 20000), shards=(2, 8)),
+            dict(name="requests", run="^TestPropRequests$", checks=(12000, 80000), shards=(4, 16)),
+            dict(name="service", run="^TestPropServiceLevel$", checks=(6000, 40000), shards=(2, 8)),
         ],
     ),
     "C08": dict(
         pkg="./c08", level="exploration",
         runs=[
-            dict(name="order", run="^TestPropEventOrder$", checks=(3000, 25000), shards=(4, 16)),
-            dict(name="groups", run="^TestPropGroupBlocks$", checks=(300, 3000), shards=(2, 8)),
+            dict(name="order", run="^TestPropEventOrder$", checks=(10000, 60000), shards=(4, 16)),
+            dict(name="groups", run="^TestPropGroupBlocks$", checks=(1000, 6000), shards=(2, 8)),
             
         ],
     ),
@@ -55,43 +55,43 @@ CHECKS = {
         pkg="./c18", level="exploration",
         runs=[
             dict(name="codec", run="^(TestPropRefs|TestPropDataValue|TestPropStoreValue|TestPropValueEqual)$", checks=(20000, 200000), shards=(4, 16)),
-            dict(name="responses", run="^TestPropResponses$", checks=(3000, 30000), shards=(2, 8)),
+            dict(name="responses", run="^TestPropResponses$", checks=(8000, 50000), shards=(2, 8)),
         ],
         fuzz=[dict(target="FuzzStoreValue", secs=(0, 45)), dict(target="FuzzUnmarshalDataValue", secs=(0, 45)), dict(target="FuzzParseResponse", secs=(0, 30))],
     ),
     "C01": dict(
         pkg="./csched", level="exploration",
         runs=[
-            dict(name="sched", run="^TestC01Exclusion$", checks=(6000, 60000), shards=(4, 16)),
-            dict(name="stress", run="^TestC01Stress$", checks=(400, 4000), shards=(2, 4)),
+            dict(name="sched", run="^TestC01Exclusion$", checks=(20000, 120000), shards=(4, 16)),
+            dict(name="stress", run="^TestC01Stress$", checks=(1000, 8000), shards=(2, 4)),
         ],
     ),
     "C02": dict(
         pkg="./csched", level="exploration",
         runs=[
-            dict(name="sched", run="^TestC02OrderExactlyOnce$", checks=(6000, 60000), shards=(4, 16)),
-            dict(name="stress", run="^TestC02Stress$", checks=(400, 4000), shards=(2, 4)),
+            dict(name="sched", run="^TestC02OrderExactlyOnce$", checks=(20000, 120000), shards=(4, 16)),
+            dict(name="stress", run="^TestC02Stress$", checks=(1000, 8000), shards=(2, 4)),
         ],
     ),
     "C03": dict(
         pkg="./csched", level="exploration",
         runs=[
-            dict(name="sched", run="^TestC03Shutdown$", checks=(6000, 60000), shards=(4, 16)),
-            dict(name="stress", run="^TestC03Stress$", checks=(300, 3000), shards=(2, 4)),
+            dict(name="sched", run="^TestC03Shutdown$", checks=(20000, 120000), shards=(4, 16)),
+            dict(name="stress", run="^TestC03Stress$", checks=(800, 6000), shards=(2, 4)),
             dict(name="regress", run="^TestRegress", shards=(1, 1)),
         ],
     ),
     "C15": dict(
         pkg="./c15", level="exploration",
         runs=[
-            dict(name="bubble", run="^TestPropQueryEvents$", checks=(4000, 40000), shards=(4, 16)),
+            dict(name="bubble", run="^TestPropQueryEvents$", checks=(12000, 80000), shards=(4, 16)),
             dict(name="regress", run="^(TestRegress.*|TestRealNATSRelease)$", shards=(1, 1)),
         ],
     ),
     "C19": dict(
         pkg="./c19", level="exploration",
         runs=[
-            dict(name="scripted", run="^TestPropSendRequest$", checks=(5000, 50000), shards=(4, 16)),
+            dict(name="scripted", run="^TestPropSendRequest$", checks=(15000, 100000), shards=(4, 16)),
             dict(name="realnats", run="^TestRealNATS$", shards=(1, 1)),
             dict(name="oldtimers", run="^TestOldTimerSemantics$", shards=(2, 4), env={"GODEBUG": "asynctimerchan=1"}),
         ],
@@ -132,7 +132,7 @@ CHECKS = {
     "C10": dict(
         pkg="./c10", level="exploration",
         runs=[
-            dict(name="mock", run="^TestPropMock$", checks=(2500, 25000), shards=(4, 16), shrinktime="15s"),
+            dict(name="mock", run="^TestPropMock$", checks=(8000, 50000), shards=(4, 16), shrinktime="15s"),
             dict(name="pairs", run="^TestExhaustivePairs$", shards=(2, 4)),
             dict(name="badger", run="^TestPropBadger$", checks=(100, 1000), shards=(2, 8), shrinktime="15s"),
             dict(name="regress", run="^TestRegress", shards=(1, 1)),
@@ -155,7 +155,7 @@ CHECKS = {
     "C16": dict(
         pkg="./c16", level="exploration",
         runs=[
-            dict(name="race", run="^TestPropRaces$", race=True, checks=(40, 600), shards=(8, 16), shrinktime="1s"),
+            dict(name="race", run="^TestPropRaces$", race=True, checks=(100, 1000), shards=(8, 16), shrinktime="1s"),
         ],
     ),
 }
